@@ -187,6 +187,9 @@ func c19Exec(r *Run, line string) string {
 	if obs, ok := c19ExecAddr(r, line, f); ok {
 		return obs
 	}
+	if obs, ok := c19ExecLock(r, line, f); ok {
+		return obs
+	}
 	return c19Exec2(r, line, f)
 }
 
@@ -1145,6 +1148,10 @@ func TestC19(t *testing.T) {
 	for i := 0; i < n; i++ {
 		if g.Chance(12) {
 			c19GenAddr(r, g, emit)
+			continue
+		}
+		if g.Chance(8) {
+			c19GenLock(r, g, emit)
 			continue
 		}
 		if g.Chance(30) {
